@@ -133,7 +133,7 @@ StripKids(K, at, recurse) ==
 (* rendering after strip: dropped nodes are simply no longer reachable *)
 StripRender(recurse) == RenderOf(nodes, StripKids(kids, 0, recurse), 0)
 (* find: filter of walk(), document order *)
-Classes(a) == IF a = 0 THEN {} ELSE IF a = 1 THEN {"c"} ELSE {"c", "d"}
+Classes(a) == IF a = 1 THEN {"c"} ELSE IF a = 2 THEN {"c", "d"} ELSE {}       \* attribute sets 0: none, 1, 2, 3: alt=""
 FindName(n) == SelectSeq(WalkOf(kids, 0), LAMBDA id : nodes[id].n = n)
 FindClass(n, c) == SelectSeq(WalkOf(kids, 0), LAMBDA id : nodes[id].n = n /\ c \in Classes(nodes[id].a))
 FindKind(k) == SelectSeq(WalkOf(kids, 0), LAMBDA id : nodes[id].k = k)
